@@ -29,7 +29,7 @@
 #error "build the harness with -DMULTITENSOR_VERIF"
 #endif
 #ifndef HARNESS_PART
-#error "define HARNESS_PART (0..5)"
+#error "define HARNESS_PART (0..6)"
 #endif
 
 using namespace multitensor;
@@ -134,7 +134,12 @@ struct Out
     {
         os << " " << k << "=";
         for (size_t i = 0; i < v.size(); i++)
-            os << (i ? "," : "") << v[i];
+        {
+            if constexpr (std::is_same_v<T, double>)
+                os << (i ? "," : "") << hx(v[i]);
+            else
+                os << (i ? "," : "") << v[i];
+        }
     }
     void dl(const std::string &k, const std::vector<double> &v)
     {
@@ -158,6 +163,17 @@ long parse_as<long>(const std::string &s) { return std::stol(s); }
 template <>
 inline
 std::string parse_as<std::string>(const std::string &s) { return s; }
+template <>
+inline
+double parse_as<double>(const std::string &s)    // floating-point labels travel as bit patterns (x + 16 hex digits)
+{
+    if (s.size() != 17 || s[0] != 'x')
+        throw std::logic_error("not a hex double label: " + s);
+    std::uint64_t b = std::stoull(s.substr(1), nullptr, 16);
+    double x;
+    std::memcpy(&x, &b, 8);
+    return x;
+}
 
 template <class W>
 W parse_weight(Cur &c);
@@ -436,6 +452,8 @@ void op_net_d(bool dir, Cur &c, Out &o)
             FN<int, size_t>(__VA_ARGS__);                                   \
         else if (lt == "s" && wt == "u")                                    \
             FN<std::string, size_t>(__VA_ARGS__);                           \
+        else if (lt == "d" && wt == "u")                                    \
+            FN<double, size_t>(__VA_ARGS__);                                \
         else                                                                \
             throw std::logic_error("unsupported label/weight type " + lt + wt); \
     } while (0)
@@ -801,6 +819,7 @@ void op_run_ul(bool, bool, const std::string &, size_t, Cur &, Out &);
 void op_run_ur(bool, bool, const std::string &, size_t, Cur &, Out &);
 void op_run_iu(bool, bool, const std::string &, size_t, Cur &, Out &);
 void op_run_su(bool, bool, const std::string &, size_t, Cur &, Out &);
+void op_run_du(bool, bool, const std::string &, size_t, Cur &, Out &);
 #if HARNESS_PART == 1
 void op_run_uu(bool d, bool a, const std::string &i, size_t K, Cur &c, Out &o) { op_run_vw<size_t, size_t>(d, a, i, K, c, o); }
 #elif HARNESS_PART == 2
@@ -811,6 +830,8 @@ void op_run_ur(bool d, bool a, const std::string &i, size_t K, Cur &c, Out &o) {
 void op_run_iu(bool d, bool a, const std::string &i, size_t K, Cur &c, Out &o) { op_run_vw<int, size_t>(d, a, i, K, c, o); }
 #elif HARNESS_PART == 5
 void op_run_su(bool d, bool a, const std::string &i, size_t K, Cur &c, Out &o) { op_run_vw<std::string, size_t>(d, a, i, K, c, o); }
+#elif HARNESS_PART == 6
+void op_run_du(bool d, bool a, const std::string &i, size_t K, Cur &c, Out &o) { op_run_vw<double, size_t>(d, a, i, K, c, o); }
 #endif
 
 #if HARNESS_PART == 0
@@ -830,6 +851,8 @@ static void op_run(Cur &c, Out &o)
         op_run_iu(dir, assort, init, K, c, o);
     else if (lt == "s" && wt == "u")
         op_run_su(dir, assort, init, K, c, o);
+    else if (lt == "d" && wt == "u")
+        op_run_du(dir, assort, init, K, c, o);
     else
         throw std::logic_error("unsupported label/weight type " + lt + wt);
 }
